@@ -1408,6 +1408,13 @@ class Interp(object):
         if isinstance(a, (str, type(None), dict, set, frozenset, type, ClassRef, ExcClass)) or \
                 isinstance(b, (str, type(None), dict, set, frozenset, type, ClassRef, ExcClass)):
             return ndarr._CMP[sym](a, b)
+        if sym in ('==', '!=') and any(isinstance(v, (TypeLike, NumType)) or (hasattr(v, 'kind') and hasattr(v, 'itemsize'))
+                                       for v in (a, b)):
+            # dtypes and type stand-ins compare like python objects (their __eq__ knows the numpy conventions)
+            eq = (a == b) if not isinstance(b, NumType) else (b == a)
+            if isinstance(a, TypeLike) and hasattr(b, 'kind') and hasattr(b, 'itemsize'):
+                eq = b == a
+            return bool(eq) if sym == '==' else not eq
         if isinstance(a, (list, tuple)) and isinstance(b, (list, tuple)) and sym in ('==', '!='):
             try:
                 return ndarr._CMP[sym](a, b)
